@@ -9,6 +9,7 @@
 mod util;
 mod variation;
 mod weighted;
+mod cases;
 mod choices;
 mod compose;
 mod evolution;
@@ -49,6 +50,7 @@ fn dispatch(cmd: &str, rest: &[String]) -> i32 {
         "ch-law" => choices::law(rest),
         "ch-trace" => choices::trace(rest),
         "ch-sizes" => choices::sizes(rest),
+        "cases-trace" => cases::trace(rest),
         "evo-trace" => evolution::trace(rest),
         "cmp-replay" => compose::replay(rest),
         "cmp-trace" => compose::trace(rest),
